@@ -32,8 +32,8 @@ reg(P(
 
 reg(P(
     "C09", "Compilation is total: any input yields success or a parser error",
-    [("A1", ALL), ("A2", ALL), ("B1", ALL), ("B6", ALL), ("A12", ALL), ("A13", ALL), ("A8", {"pairing", "filepath"}), ("C9", ALL), ("T1", ALL)],
-    "no exception class other than ParserError/OSError escapes parse(), none escapes lint(), none other than RendererError/OSError escapes render() for the four renderers (A1 over an RTA call graph with handler contexts; discharges by dominating guards, exhaustive dispatch A2, index/grammar consistency B1, typestate A12/A13, option table C9, and the triaged invariants of beliefs.json); p_error/t_error always raise (B6); every loop has a strictly advancing counter or ranges over a finite collection, recursion descends the acyclic type graph (T1).",
+    [("A1", ALL), ("A2", ALL), ("B1", ALL), ("B6", ALL), ("A12", ALL), ("A13", ALL), ("A8", {"pairing", "filepath"}), ("C9", ALL), ("T1", ALL), ("C1", {"imports"})],
+    "no exception class other than ParserError/OSError escapes parse(), none escapes lint(), none other than RendererError/OSError escapes render() for the four renderers (A1 over an RTA call graph with handler contexts; discharges by dominating guards, exhaustive dispatch A2, index/grammar consistency B1, typestate A12/A13, option table C9, and the triaged invariants of beliefs.json); p_error/t_error always raise (B6); every loop has a strictly advancing counter or ranges over a finite collection, recursion descends the acyclic type graph, and the import recursion is cut by a cycle check that compares files with samefile() before the child is parsed (T1, C1 imports part).",
     "RecursionError / memory / time on pathologically large accepted schemas; behaviour inside ply; UnicodeDecodeError while reading a file (input is text).",
 ))
 
@@ -81,7 +81,7 @@ reg(P(
 
 reg(P(
     "C02", "Python decode(encode(v)) == v, and re-encoding reproduces the bytes",
-    [("D1", {"py"}), ("E1", {"py"}), ("D6", {"py"}), ("D4", {"py"}), ("D3", {"py"}), ("D7", {"py"}), ("C3", {"py"}), ("C4", {"py"})],
+    [("D1", {"py"}), ("E1", {"py"}), ("D6", {"py", "py-decode"}), ("D4", {"py"}), ("D3", {"py"}), ("D7", {"py"}), ("C3", {"py"}), ("C4", {"py"})],
     "the decode chunk is the mirror of the encode chunk (D1 both directions against the same specification form); set-byte items OR a totally-converted chunk into the same reference the get-byte item reads, `=` only for bool, enum chunks go to the integer proxy (D6); sign extension from bit n-1 with mask -(2^n) for every width narrower than its storage, bp.intN thresholds 2^(N-1) / modulus 2^N (D4); decode half of the extensible processors including the skip target (D3); mask < 256 and progress (E1).",
     "equality of values; exceptions inside dataclasses / IntEnum for member values.",
 ))
@@ -138,7 +138,7 @@ reg(P(
 
 reg(P(
     "C10", "Every accepted schema yields code the target toolchains accept (narrow: necessary structural conditions)",
-    [("F2", ALL), ("F1", ALL), ("A2", ALL), ("A1", {"render"}), ("A13", ALL), ("F6", ALL), ("F7", ALL)],
+    [("F2", ALL), ("F1", ALL), ("A2", ALL), ("A1", {"render"}), ("A13", ALL), ("F6", ALL), ("F7", ALL), ("F8", ALL), ("C5", {"common"})],
     "definitions are emitted children first in declaration order for the bound proto (F2); each block class pushes balanced brackets and #if/#endif on every path (F1); rendering raises no internal error: exhaustive dispatch, abstract coverage, render-context and push_string discipline (A2, A1 render part, A13); internal helper-name templates are uniquely decodable (F6); include/import statements name the file the compiler generates (F7).",
     "whether gcc, g++, CPython or Go accept the output (that needs the output); struct layout equality in C++; reserved words.",
 ))
